@@ -9,6 +9,7 @@ import MdVerif.Props.C16Tables
 #print axioms MdVerif.Tables.C16_split_plain
 #print axioms MdVerif.Tables.C16_escaped_pipe
 #print axioms MdVerif.Tables.C16_bordered_row
+#print axioms MdVerif.Tables.C16_end_border_keeps_backslashes
 #print axioms MdVerif.Tables.C16_code_pipe
 #print axioms MdVerif.Tables.C16_align
 #print axioms MdVerif.Tables.C16_align_center0
